@@ -223,7 +223,7 @@ func c31GenTimeColumn(t *rapid.T, n int, c *c31Case) (param string, vals []c31Ti
 	}
 	// hostile values
 	if c31Chance(t, "badtime", 7) && n > 0 {
-		i := rapid.IntRange(0, n-1).Draw(t, "badrow")
+		i := c31Uniform(t, "badrow", n)
 		vals[i] = c31TimeVal{Text: c31Pick(t, "badval", "", "   ", "NaN", "Inf", "-Inf", "abc", "2021-13-45", "12:00", "nan", "0x"), Bad: true}
 		c.class("time:bad-value")
 	}
@@ -274,10 +274,69 @@ var c31WideInt = []string{"9223372036854775807", "-9223372036854775808", "900719
 var c31BigInt = []string{"9223372036854775808", "-9223372036854775809", "99999999999999999999", "18446744073709551615", "123456789012345678901234567890"}
 var c31BoolWords = []string{"true", "false", "TRUE", "FALSE", "True", "False", "tRuE", "fAlSe"}
 
+// c31OrderPatterns: order-sensitive mixes. The handler infers a column in a
+// single pass whose state (still-int / still-float / still-bool) depends on the
+// order in which the kinds of cell arrive, so each pattern lays the kinds out
+// as consecutive runs (ints first then bool words, bool words first then ints,
+// int -> float -> string, ...). The reference (c31Infer) is order-independent.
+var c31OrderPatterns = [][]string{
+	{"int", "boolword"}, {"int", "boolword", "int01"}, {"boolword", "int"}, {"int01", "boolword"},
+	{"int01", "int", "boolword"}, {"int", "boolword", "float"}, {"int", "float", "word"}, {"float", "int"},
+	{"int", "word"}, {"boolword", "word"}, {"int", "float"}, {"float", "boolword"}, {"int01", "float"},
+	{"boolword", "int01", "int"}, {"int", "int01", "boolword", "int01"}, {"float", "int", "boolword"},
+}
+
+func c31Uniform(t *rapid.T, label string, n int) int {
+	v := 0
+	for i := 0; i < 8; i++ {
+		if rapid.Bool().Draw(t, label) {
+			v |= 1 << i
+		}
+	}
+	return v * n / 256
+}
+
+func c31GenOrderedCells(t *rapid.T, n, emptyPct int, c *c31Case) []string {
+	pat := c31OrderPatterns[c31Uniform(t, "orderpattern", len(c31OrderPatterns))]
+	c.class("col:ordered:" + strings.Join(pat, ">"))
+	cells := make([]string, n)
+	// run boundaries: every kind gets at least one cell while cells last
+	seg := 0
+	for i := range cells {
+		remainingCells, remainingSegs := n-i, len(pat)-seg
+		if seg < len(pat)-1 && i > 0 && (remainingCells <= remainingSegs-1 || c31Chance(t, "nextrun", 35)) {
+			seg++
+		}
+		if emptyPct > 0 && c31Chance(t, "empty", emptyPct) {
+			continue
+		}
+		switch pat[seg] {
+		case "int":
+			// mostly values that are not 0/1 (those are also bool literals)
+			cells[i] = strconv.FormatInt(rapid.Int64Range(2, 99999).Draw(t, "oi"), 10)
+			if c31Chance(t, "oineg", 20) {
+				cells[i] = "-" + cells[i]
+			}
+		case "int01":
+			cells[i] = c31Pick(t, "b01", "0", "1")
+		case "float":
+			cells[i] = c31Pick(t, "oflit", "1.5", "-2.25", "1e3", "0.0", "NaN", "3.0", ".5")
+		case "boolword":
+			cells[i] = c31Pick(t, "bw", c31BoolWords...)
+		default:
+			cells[i] = c31Pick(t, "ow", "alpha", "x", "N/A", "t", "yes", "1.2.3")
+		}
+	}
+	return cells
+}
+
 func c31GenCells(t *rapid.T, n int, c *c31Case) []string {
-	class := c31Pick(t, "colclass", "int", "int", "intfmt", "intwide", "float", "float", "intfloat", "bigint", "bool", "bool01", "boolmix", "str", "str", "mixed", "numlike", "allempty")
+	class := c31Pick(t, "colclass", "int", "ordered", "int", "intfmt", "ordered", "intwide", "float", "float", "intfloat", "bigint", "bool", "bool01", "boolmix", "str", "str", "mixed", "numlike", "allempty")
 	emptyPct := c31Pick(t, "emptypct", 0, 0, 15, 40)
 	c.class("col:" + class)
+	if class == "ordered" {
+		return c31GenOrderedCells(t, n, emptyPct, c)
+	}
 	cells := make([]string, n)
 	for i := range cells {
 		if class == "allempty" || (emptyPct > 0 && c31Chance(t, "empty", emptyPct)) {
